@@ -701,16 +701,32 @@ class Fx(object):
                     vals.append(None)
                     inner = inner["c"][-1]
             return vals, inner
+        def closing_block(st):
+            """`{ ...; break; }`: (True, the block without its trailing break) - an arm written as a block of its own"""
+            if st["k"] == "CompoundStmt":
+                kids = [x for x in st.get("c", []) if x is not None]
+                if kids and kids[-1]["k"] == "BreakStmt":
+                    st2 = dict(st)
+                    st2["c"] = kids[:-1]
+                    return True, st2
+                if kids and kids[-1]["k"] == "ReturnStmt":
+                    return True, st
+            return False, st
         for st in body.get("c", []):
             if st["k"] in ("CaseStmt", "DefaultStmt"):
                 vals, first = open_case(st)
+                closed_, first = closing_block(first)
                 if cur is not None and not cur[2]:
                     # fall through into this label: extend the previous group's statements too
                     cur[0].extend(vals)
                     cur[1].append(first)
+                    cur[2] = closed_
                 else:
-                    cur = [vals, [first], False]
+                    cur = [vals, [first], closed_]
                     groups.append(cur)
+            elif st["k"] == "CompoundStmt" and cur is not None and closing_block(st)[0]:
+                cur[1].append(closing_block(st)[1])
+                cur[2] = True
             elif st["k"] == "BreakStmt":
                 if cur is not None:
                     cur[2] = True
